@@ -1,6 +1,12 @@
 //! Storage encryption
 
-use std::{collections::HashMap, sync::Arc};
+use std::{
+    collections::HashMap,
+    sync::{
+        atomic::{AtomicUsize, Ordering},
+        Arc,
+    },
+};
 
 use async_lock::RwLock;
 
@@ -29,6 +35,8 @@ pub type ProfileId = i64;
 #[derive(Debug)]
 pub struct KeyCache {
     profile_info: RwLock<HashMap<String, (ProfileId, Arc<ProfileKey>)>>,
+    // number of `remove_profile` calls so far, see `add_profile_unless_removed`
+    removals: AtomicUsize,
     pub(crate) store_key: Arc<StoreKey>,
 }
 
@@ -36,6 +44,7 @@ impl KeyCache {
     pub fn new(store_key: impl Into<Arc<StoreKey>>) -> Self {
         Self {
             profile_info: RwLock::new(HashMap::new()),
+            removals: AtomicUsize::new(0),
             store_key: store_key.into(),
         }
     }
@@ -61,12 +70,38 @@ impl KeyCache {
         self.profile_info.write().await.insert(ident, (pid, key));
     }
 
+    /// The number of profile removals seen by the cache so far
+    pub fn removal_count(&self) -> usize {
+        self.removals.load(Ordering::Acquire)
+    }
+
+    /// Add a profile which was read from the database after `removal_count`
+    /// returned `removals`, unless a profile has been removed in the meantime:
+    /// the row may be gone by now, and caching it would keep the removed
+    /// profile accessible
+    pub async fn add_profile_unless_removed(
+        &self,
+        removals: usize,
+        ident: String,
+        pid: ProfileId,
+        key: Arc<ProfileKey>,
+    ) -> bool {
+        let mut info = self.profile_info.write().await;
+        if self.removals.load(Ordering::Acquire) != removals {
+            return false;
+        }
+        info.insert(ident, (pid, key));
+        true
+    }
+
     pub async fn get_profile(&self, name: &str) -> Option<(ProfileId, Arc<ProfileKey>)> {
         self.profile_info.read().await.get(name).cloned()
     }
 
     pub async fn remove_profile(&self, name: &str) {
-        self.profile_info.write().await.remove(name);
+        let mut info = self.profile_info.write().await;
+        self.removals.fetch_add(1, Ordering::AcqRel);
+        info.remove(name);
     }
 }
 
